@@ -4,4 +4,4 @@ From Coq Require Import Extraction ExtrOcamlBasic.
 From GrolModel Require Import Values Cmp Maps.
 Extraction Language OCaml.
 Extraction "maps_model.ml" type_of cmp equals cmp_c
-  elems is_big mnew mget mset mdelete mlen mfirst mrest mrange mappend mliteral minspect.
+  elems is_big mnew mget mset mdelete mlen mfirst mrest mrange mappend mliteral minspect bnew.
